@@ -12,7 +12,11 @@ RULE = (
     "reopen(r+/a, committed or not) and discard ops at generated positions; every history runs under placements "
     "none / generated / commit-after-every-op against IH5Record (and IH5MFRecord in half the shards) in lock step "
     "with an independent reference tree; after every op: success parity, full tree dump equality, "
-    "keys/len/in/[]/get/visit/visititems agreement. Non-trivial = a node recreated in a patch is later touched "
+    "keys/len/in/[]/get/visit/visititems agreement. Ops also cover: re-creation at deleted paths by set/mkgrp/move/copy "
+    "(revive), values h5py refuses (the failed assignment must change nothing), refused attribute writes after a delete, "
+    "in-place edits of array datasets (copy_into_patch), 0-dim / string-array / opaque-datetime / enum / non-UTF-8 values. "
+    "Fixed matrices (shard invalid-keys): keys outside the alphabet x every entry point, forms of the deletion-marker "
+    "value (refused or stored visibly), a lazily allocated 8 TiB dataset next to ordinary data. Non-trivial = a node recreated in a patch is later touched "
     "in a later container (>=3 containers involved) or a delete/recreate happens in container index >=2; "
     "distinct by (placement, container count, bound op kinds and paths)"
 )
